@@ -5,6 +5,7 @@
 # settle the property) and the check of the property must report a violation at the quick tier.
 # usage: tools/revert_validate.sh [outfile]    (run from /verif or a snapshot of it)
 set -u
+. "$(cd "$(dirname "$0")" && pwd)/scratch_cache.sh"
 here=$(cd "$(dirname "$0")/.." && pwd)
 out=${1:-$here/notes/revert-validation.tsv}
 mkdir -p "$(dirname "$out")"
@@ -17,6 +18,7 @@ for f in json.load(open(sys.argv[1])):
         print(f["property"], f["commit"])
 PY
 while read -r prop sha; do
+  trim_scratch_cache
   wt=/tmp/vf-scratch-revert-$sha
   git -C /repo worktree remove --force "$wt" >/dev/null 2>&1
   rm -rf "$wt"
